@@ -25,7 +25,7 @@ def registry():
     R["C01"] = _p(
         "Decides structural clauses of C01 on the typed HIR of src/xlsx: the two cell walkers move the row/column cursor identically (R-SIB-XLSX); the declared <dimension> only sizes capacity hints (R-DIM); element names are matched prefix-insensitively and like with like (R-NS); parts are opened only through the case-insensitive resolver (R-PART); the `t` attribute maps to the documented variants (R-TAB-T) and error literals to error kinds (R-TAB-ERR); Empty cells are filtered before every push (R-TIGHT); readers expand empty elements and never trim (R-XMLCFG); the shared-string table gets one entry per <si> (R-SST).",
         "A1 -> (row, col) arithmetic, number parsing, relationship-target normalisation, the zip layer; an identical edit applied to both walkers",
-        [S.r_sib_xlsx, W.r_dim, X.r_ns, X.r_part, T.r_tab_t, T.r_tab_err, S.r_tight, X.r_xmlcfg, part(W.r_sst, only=["xlsx shared"]), W.r_minmax])
+        [S.r_sib_xlsx, W.r_dim, X.r_ns, X.r_part, T.r_tab_t, T.r_tab_err, S.r_tight, X.r_xmlcfg, part(W.r_sst, only=["xlsx shared"]), W.r_minmax, X.r_cdata])
     R["C02"] = _p(
         "Decides structural clauses of C02 on src/xls.rs: the sheet-substream dispatch has an arm feeding the cell vector for each record kind the property names (R-TAB-REC); BoolErr / FormulaValue error codes follow MS-XLS BErr (R-TAB-ERR); DIMENSIONS only sizes a reserve (R-DIM).",
         "RK / IEEE bit arithmetic, sign extension, MULRK column arithmetic",
